@@ -163,6 +163,17 @@ func (t *Topic) DeleteExistingChannel(channelName string) error {
 	numChannels := len(t.channelMap)
 	t.Unlock()
 
+	if !channel.ephemeral {
+		// the persist requested by channel.Delete() may have run while the
+		// channel was still registered, persist again now that it is gone
+		t.nsqd.Lock()
+		err := t.nsqd.PersistMetadata()
+		if err != nil {
+			t.nsqd.logf(LOG_ERROR, "failed to persist metadata - %s", err)
+		}
+		t.nsqd.Unlock()
+	}
+
 	// update messagePump state
 	select {
 	case t.channelUpdateChan <- 1:
